@@ -361,6 +361,9 @@ def write_scsv_header(stream, schema, comments=None):
     stream.write("schema:" + os.linesep)
     delimiter = schema["delimiter"]
     missing = schema["missing"]
+    # Single quotes inside YAML single-quoted scalars are written twice.
+    delimiter = str(delimiter).replace("'", "''")
+    missing = str(missing).replace("'", "''")
     stream.write(f"  delimiter: '{delimiter}'{os.linesep}")
     stream.write(f"  missing: '{missing}'{os.linesep}")
     stream.write("  fields:" + os.linesep)
